@@ -3,7 +3,7 @@
 # 1. scratch worktree of /repo HEAD, demo passes on pristine; 2. apply patch, demo fails, pinned suite still passes;
 # 3. run own checks (quick, then thorough when quick misses); 4. write seeded/<CNN>-<X>/{patch.diff,demo.py,meta.json}
 id=$1; x=$2; extra=$3
-src=/tmp/mut/$id-out
+src=${SEED_ROOT:-/tmp/mut}/$id-out
 here="$(cd "$(dirname "$0")/.." && pwd)"
 wt=/tmp/wt-acc-$id-$x
 out=$here/seeded/$id-$x
